@@ -1130,8 +1130,8 @@ func boundedByInput(v *Val, conds []Cond) (bool, string) {
 			if saysAtMost(c, side) && nonNegative(v, conds) {
 				av, ao := affOf(stripIntConv(v)), affOf(cv.Args[side])
 				if !av.Top && !ao.Top && len(av.Term) == 1 && av.C == 0 {
-					for k := int64(2); k <= 16; k++ {
-						if ao.Equal(av.Scale(k)) {
+					for key, cv1 := range av.Term {
+						if co, has := ao.Term[key]; has && cv1 > 0 && co >= cv1 && co%cv1 == 0 && ao.Equal(av.Scale(co/cv1)) {
 							return true, "guarded by " + c.String()
 						}
 					}
